@@ -23,10 +23,11 @@ ASSUMPTIONS = [
     "json.load(json.dump(v)) == v for JSON values",
     "strftime('%Y') is not zero padded below year 1000 on this platform; strptime uses CPython's own regular expression for the format",
 ]
-for _n in ("FileSet.save_cache", "FileSet.load_cache", "FileSet.reset_cache", "FileSet.get_info"):
+for _n in ("FileSet.__init__", "FileSet.save_cache", "FileSet.load_cache", "FileSet.reset_cache", "FileSet.get_info"):
     REG.inline_ok.add(M + _n)
 for _n in ("FileInfo.to_json_dict", "FileInfo.from_json_dict", "FileInfo.__init__", "FileInfo.times", "FileInfo.path"):
     REG.inline_ok.add("typhon.files.handlers.common:" + _n)
+REG.interpreted_constructors.add("typhon.files.fileset:FileSet")   # FileSet(info_cache=...) loads the cache: never natively
 _dt = _c02._fresh_dt
 
 
@@ -99,6 +100,9 @@ def _dump(interp, obj, fp, *a, **k):
     d.files[fp.path] = "unflushed:partial:some bytes"
     d.fault("json.dump")                                   # a crash in the middle of writing
     d.files[fp.path] = "unflushed:doc:" + repr(obj)
+    if not hasattr(d, "documents"):
+        d.documents = {}
+    d.documents["doc:" + repr(obj)] = obj                  # what a later json.load of this complete document returns
     return None
 
 
@@ -134,6 +138,16 @@ def _exists(interp, path):
     return path in d.files
 
 
+import atexit as _atexit
+
+
+@_model(_atexit.register, always=True)
+def _atexit_register(interp, fn, *a, **k):
+    # the handler is recorded, never installed in the checker's own process
+    interp.ctx.ghost.setdefault("atexit", []).append((fn, a, k))
+    return fn
+
+
 @_model(_warnings.warn, always=True)
 def _warn(interp, msg, *a, **k):
     interp.ctx.ghost.setdefault("warned", []).append(str(msg)[:60])
@@ -165,6 +179,49 @@ def thm_save():
 
 def implies_(c, thunk):
     return thunk() if c else True
+
+
+def _dbg(*a):
+    import sys
+    print("DBG", a, file=sys.stderr)
+
+
+_dbg.__pyvc_native__ = True
+
+
+def _save_load(k, via_constructor):
+    kinds = dict(("t%d" % i, _dt("t%d" % i, 6)) for i in range(2 * k))
+
+    @theorem(P, "save-then-load[%d entries,%s]" % (k, "constructor" if via_constructor else "load_cache"), **kinds)
+    def thm(**ts):
+        ctx = _sym.ctx()
+        disk = Disk(ctx, {"/cache.json": "doc:OLD"})
+        disk.documents = {"doc:OLD": [FileInfo("/data/1999/01/01/0000.nc", [datetime(1999, 1, 1), datetime(1999, 1, 2)], {"stale": 1}).to_json_dict()]}
+        disk.faults = 1                       # no injected faults in this theorem
+        ctx.ghost["c15_disk"] = disk
+        ctx.ghost["warned"] = []
+        paths = ["/data/2018/01/0%d/0000.nc" % (i + 1) for i in range(k)]
+        fs = _fs_with_cache(dict((p, (ts["t%d" % (2 * i)], ts["t%d" % (2 * i + 1)])) for i, p in enumerate(paths)))
+        fs.save_cache("/cache.json")
+        if via_constructor:
+            fs2 = FileSet(path="/data/{year}/{month}/{day}/{hour}{minute}.nc", name="verif2", info_cache="/cache.json")
+        else:
+            fs2 = FileSet(path="/data/{year}/{month}/{day}/{hour}{minute}.nc", name="verif2")
+            fs2.load_cache("/cache.json")
+        ensures(sorted(fs2.info_cache) == paths, id="the restored cache holds exactly the saved paths (nothing stale, nothing lost)")
+        for i, p in enumerate(paths):
+            got = fs2.info_cache[p]
+            ensures(got.path == p, got.times[0] == ts["t%d" % (2 * i)], got.times[1] == ts["t%d" % (2 * i + 1)], got.attr == {"v": 1},
+                    id="entry %d: identical path, times and attributes" % i)
+        ensures(len(ctx.ghost["warned"]) == 0, id="no warning")
+        ctx.ghost["c15_disk"] = None
+    return thm
+
+
+for _k in (0, 1, 2):
+    _save_load(_k, False)
+_save_load(0, True)
+_save_load(1, True)
 
 
 @theorem(P, "save-none-is-noop")
